@@ -47,7 +47,9 @@ struct LogRecordSetterTrait<EventId>
   template <class ArgumentType>
   inline static LogRecord *Set(LogRecord *log_record, ArgumentType &&arg) noexcept
   {
-    log_record->SetEventId(arg.id_, nostd::string_view{arg.name_.get()});
+    // EventId(int64_t) leaves name_ null: there is no name then, do not run strlen on a null pointer
+    log_record->SetEventId(arg.id_, arg.name_.get() != nullptr ? nostd::string_view{arg.name_.get()}
+                                                               : nostd::string_view{});
 
     return log_record;
   }
